@@ -674,6 +674,9 @@ func (vc *VC) heapGet(st *State, comp, sort string) Term {
 }
 
 func (vc *VC) heapSet(st *State, comp string, t Term) {
+	if _, ok := vc.compSort[comp]; !ok {
+		vc.compSort[comp] = t.Sort // a component first met through a write (e.g. a coarse havoc)
+	}
 	st.heap[comp] = vc.define(comp, t)
 }
 
